@@ -1,11 +1,13 @@
 import Hub.SDK.Coins
-/- GENERATED from utils/coin.go by /verif/translator; do not edit. -/
+/- GENERATED from utils/coin.go (and the constants of types/bandwidth.go) by /verif/translator; do not edit. -/
 namespace Hub.Generated
 open Hub.SDK
 
-/-- `types.Gigabyte = NewInt(1000).Mul(NewInt(1000).Mul(NewInt(1000)))` -/
+/-- `types.Kilobyte = sdkmath.NewInt(1000)` -/
 def Kilobyte : SInt := 1000
+/-- `types.Megabyte = sdkmath.NewInt(1000).Mul(Kilobyte)` -/
 def Megabyte : SInt := 1000 * Kilobyte
+/-- `types.Gigabyte = sdkmath.NewInt(1000).Mul(Megabyte)` -/
 def Gigabyte : SInt := 1000 * Megabyte
 
 /-- `func AmountForBytes(gigabytePrice, bytes sdkmath.Int) sdkmath.Int` -/
